@@ -417,8 +417,10 @@ def run_case(seed, tier, rec, st):
 
 
 def explained_by(fam, t, d, got):
-    for q in ("F02", "F24"):
-        qref = Ref(fam, quirks=(q,))
+    # each recorded mechanism alone, then both together (one input can run into both: a NamedTuple with defaults whose
+    # first member is a union with a None member); the combination is attributed to the rarer one
+    for q in ("F02", "F24", ("F02", "F24")):
+        qref = Ref(fam, quirks=q if isinstance(q, tuple) else (q,))
         try:
             e = ("ok", qref.dec(t, d, Ctx()))
         except RefError as ex:
@@ -426,7 +428,7 @@ def explained_by(fam, t, d, got):
         if e[0] != got[0]:
             continue
         if e[0] == "raise" or deep_eq(got[1], e[1], key_order=False):
-            return q
+            return q if isinstance(q, str) else "F24"
     return None
 
 
